@@ -130,6 +130,11 @@ def handleAdd (o : Op) : String :=
     | some v => if !inI64 v then "bad-op" else
       finAdd (addSigned 2 v) (fun bs => readSigned 64 bs == some (v, [])) true
     | none => "bad-op"
+  | some "marshal" =>   -- MarshalASN1(int64): encoding/asn1.Marshal's INTEGER appended
+    match o.int? "v" with
+    | some v => if !inI64 v then "bad-op" else
+      finAdd (addSigned 2 v) (fun bs => readSigned 64 bs == some (v, [])) true
+    | none => "bad-op"
   | some "int64tag" =>
     match o.int? "v", tagOf o with
     | some v, some t => if !inI64 v then "bad-op" else
